@@ -91,6 +91,15 @@ def check_arrays(z, aot, nmodes, sizes):
         want = sum(c * full[k] for k, c in enumerate(coef))
         if ph.shape != (N, N) or not np.allclose(ph, want, rtol=0, atol=1e-10):
             return [("phaseFromZernikes:linear-combination", dict(N=N))]
+        # call order must not matter: a normalised array asked for FIRST must not change what a later Noll request returns
+        for first, cnt in (("p2v", max(2, nmodes - 1)), ("rms", max(2, nmodes - 2))):
+            z.zernikeArray(cnt, N, norm=first)
+            again = np.asarray(z.zernikeArray(cnt, N))
+            if not np.array_equal(again, full[:cnt]):
+                return [("zernikeArray:depends-on-earlier-calls", dict(N=N, count=cnt, first=first))]
+            z.zernikeArray([3, 2], N, norm=first)
+            if not np.array_equal(np.asarray(z.zernikeArray([3, 2], N)), full[[2, 1]]):
+                return [("zernikeArray:depends-on-earlier-calls", dict(N=N, list=[3, 2], first=first))]
         # normalisation and rotation arguments must reach the modes (a phase is that linear combination for every norm / rot)
         for norm in ("noll", "p2v", "rms"):
             for rot in (0.0, 0.4):
